@@ -189,7 +189,7 @@ func (s *serverChild) logTail() string {
 
 func utf8Spec(sp *DataSpec) {
 	for i := range sp.Cols {
-		if sp.Cols[i].Kind == "bin" || sp.Cols[i].Kind == "order" || sp.Cols[i].Kind == "boundary" {
+		if sp.Cols[i].Kind == "bin" || sp.Cols[i].Kind == "order" || sp.Cols[i].Kind == "boundary" || sp.Cols[i].Kind == "joinable" {
 			sp.Cols[i].Kind = "utf8"
 		}
 	}
